@@ -74,6 +74,24 @@ Theorem C08_registry_same_name_same_logger : forall names order m nx res t1 l1 t
 Proof. exact seq_registry_consistent. Qed.
 Print Assumptions C08_registry_same_name_same_logger.
 
+(* No orphans: in EVERY interleaving, the logger a caller was given is the one the registry holds
+   under its name - so options applied to the registered loggers reach every holder. *)
+Theorem C08_registry_no_orphan : forall names es s t l,
+  rrun names rinit es = Some s ->
+  r_pc s t = RHave l \/ r_pc s t = RDone l -> lookup (names t) (r_map s) = Some l.
+Proof. exact registry_no_orphan. Qed.
+Print Assumptions C08_registry_no_orphan.
+
+(* A read-locked fast path that creates and stores without looking again under the write lock
+   (not what the tree does) breaks both: two overlapping first look-ups of one name get different
+   loggers and the registry keeps only the second. *)
+Theorem C08_registry_fastpath_refuted :
+  exists names es s,
+    frun names finit es = Some s /\ names 0 = names 1 /\
+    f_pc s 0 = FDone 0 /\ f_pc s 1 = FDone 1 /\ lookup (names 0) (f_map s) = Some 1.
+Proof. exact registry_fastpath_refuted. Qed.
+Print Assumptions C08_registry_fastpath_refuted.
+
 (* byteslicepool: for EVERY initial memory content, every schedule of Get / append / Put by any
    number of callers and every choice of sync.Pool, the bytes a caller sees through its slice
    are exactly the bytes it appended itself since its Get. *)
@@ -98,6 +116,7 @@ Theorem C08_oracle_sound : forall c,
   | CObs obs => all_same obs
   | CPool _ data got_len seen => got_len = 0%Z /\ seen = data
   | CReg obs => reg_consistent obs
+  | CRegApply obs reached => reg_consistent obs /\ all_reached reached
   end.
 Proof. exact oracle_sound. Qed.
 Print Assumptions C08_oracle_sound.
